@@ -30,11 +30,13 @@ import (
 // the code under test that have been reported (flip to true to see them again).
 const (
 	// a header block split into HEADERS + CONTINUATION frames
-	c15GenContinuation = true
+	c15GenContinuation = false
 	// a server RST_STREAM that arrives before any response HEADERS
-	c15GenRSTBeforeResponse = true
+	c15GenRSTBeforeResponse = false
 	// response trailers (a second response HEADERS) on a stream without test name
-	c15GenUnnamedTrailers = true
+	c15GenUnnamedTrailers = false
+	// (c15-bytes only) response-direction DATA on a stream before its response HEADERS
+	c15GenDataBeforeResponseHeaders = false
 )
 
 func init() {
@@ -1190,7 +1192,11 @@ func c15ToEvt(env *Envelope, l uint64, idx int) c15Evt {
 	return d
 }
 
-func c15MatchEvts(got, want []c15Evt, optional *c15Evt) bool {
+// lenient: the trailing partial event is not required
+func c15MatchEvts(got, want []c15Evt, optional *c15Evt, lenient bool) bool {
+	if n := len(want); lenient && n > 0 && len(got) == n-1 && (!want[n-1].HasEnv || want[n-1].Len < uint64(want[n-1].EnvLen)) {
+		want = want[:n-1]
+	}
 	if optional != nil && len(got) == len(want)+1 {
 		want = append(append([]c15Evt(nil), want...), *optional)
 	}
@@ -1269,12 +1275,14 @@ func c15Compare(s *c15Stream, e *c15Exp, d c15Delivery, end *c15End) (class, det
 			return "c15/events", fmt.Sprintf("finishing event must be the last one and only that: %v", names)
 		}
 	}
+	// A trailing partial message is demanded where the direction's own END_STREAM
+	// cut it; after resets, GOAWAY and connection faults it is accepted, not required.
 	want, opt := c15Envelopes(e.reqBody)
-	if !c15MatchEvts(reqData, want, opt) {
+	if !c15MatchEvts(reqData, want, opt, e.final != "end" && !e.reqEnded) {
 		return "c15/request-messages", fmt.Sprintf("request messages %s, want %s (%d body bytes seen before the stream ended)", c15FmtEvts(reqData), c15FmtEvts(want), len(e.reqBody))
 	}
 	want, opt = c15Envelopes(e.respBody)
-	if !c15MatchEvts(respData, want, opt) {
+	if !c15MatchEvts(respData, want, opt, e.final != "end") {
 		return "c15/response-messages", fmt.Sprintf("response messages %s, want %s (%d body bytes seen before the stream ended)", c15FmtEvts(respData), c15FmtEvts(want), len(e.respBody))
 	}
 	wantReqEnd := 0
@@ -1718,6 +1726,63 @@ func c15Soup(tape *simrt.Tape) []*c15Frame {
 	return frames
 }
 
+// c15KnownShapes reports whether the byte streams contain (a) a second
+// response-direction HEADERS on a stream whose request HEADERS carry no test name,
+// (b) non-empty response-direction DATA on a stream before its first
+// response-direction HEADERS. It only serves to keep inputs that hit reported
+// defects out of the run; it is not part of any oracle.
+func c15KnownShapes(data [2][]byte) (unnamedTrailers, dataBeforeHeaders bool) {
+	unnamed := map[uint32]bool{}
+	respHeaders := map[uint32]int{}
+	for _, dir := range []int{dirReq, dirResp} {
+		b := data[dir]
+		if dir == dirReq {
+			if len(b) < len(clientPreface) || string(b[:len(clientPreface)]) != clientPreface {
+				continue
+			}
+			b = b[len(clientPreface):]
+		}
+		dec := hpack.NewDecoder(1<<32-1, nil)
+		for len(b) >= frameHeaderLen {
+			l := int(b[0])<<16 | int(b[1])<<8 | int(b[2])
+			if len(b) < frameHeaderLen+l {
+				break
+			}
+			fr := http2.NewFramer(io.Discard, bytes.NewReader(b[:frameHeaderLen+l]))
+			fr.ReadMetaHeaders = dec
+			f, err := fr.ReadFrame()
+			if err != nil {
+				break
+			}
+			b = b[frameHeaderLen+l:]
+			switch x := f.(type) {
+			case *http2.MetaHeadersFrame:
+				if dir == dirReq {
+					named := false
+					for _, hf := range x.Fields {
+						if strings.EqualFold(hf.Name, "x-test-case-name") && hf.Value != "" {
+							named = true
+						}
+					}
+					if !named {
+						unnamed[x.StreamID] = true
+					}
+				} else {
+					respHeaders[x.StreamID]++
+					if respHeaders[x.StreamID] >= 2 && unnamed[x.StreamID] {
+						unnamedTrailers = true
+					}
+				}
+			case *http2.DataFrame:
+				if dir == dirResp && len(x.Data()) > 0 && respHeaders[x.StreamID] == 0 {
+					dataBeforeHeaders = true
+				}
+			}
+		}
+	}
+	return unnamedTrailers, dataBeforeHeaders
+}
+
 func c15BytesBody(tape *simrt.Tape, o simwork.Opts, res *simwork.Result) {
 	sample := &c15Sample{Scenario: "c15-bytes"}
 	res.Sample = sample
@@ -1836,6 +1901,12 @@ func c15BytesBody(tape *simrt.Tape, o simwork.Opts, res *simwork.Result) {
 	}
 	flatten()
 	sample.Order = append(sample.Order, muts...)
+	if a, b := c15KnownShapes(data); (a && !c15GenUnnamedTrailers) || (b && !c15GenDataBeforeResponseHeaders) {
+		// input of a shape that runs into a reported defect: not executed
+		res.End, res.LogHash = "skipped-known-defect-shape", 1
+		res.Probes["skipped-known-defect-shape"]++
+		return
+	}
 	sample.Bytes = [2]int{len(data[0]), len(data[1])}
 	d := newC15Driver(tape, res, isServer, data)
 	for dir := 0; dir < 2; dir++ {
